@@ -80,6 +80,11 @@ impl World {
 
     /// one I/O step; true = this step fails
     fn tick(&mut self, token: String) -> bool {
+        // a driver that never stops talking to the chip (a wait loop that cannot end) is cut off:
+        // the panic surfaces as `PANIC` through the suites' catch_unwind
+        if self.step > 400 {
+            panic!("DIVERGE: more than 400 I/O steps in one call");
+        }
         let failed = self.fault == Some(self.step);
         self.step += 1;
         if self.log_on {
